@@ -24,6 +24,8 @@ import (
 	"strings"
 	"time"
 
+	"github.com/youzan/ZanRedisDB/node"
+
 	"verif/harness/internal/hx"
 	"verif/harness/internal/smx"
 )
@@ -130,7 +132,7 @@ func main() {
 }
 
 // modelInput: ops '|', calls ';' (prefix '!' = list ReqId > 0), requests ','.
-// request = R.<namehex>.p<index of the primary key among the log's keys>.<nargs>.<class>.<errhash> | X.<class>.<errhash> | G.<class>.<errhash>
+// request = R.<namehex>.p<index of the primary key among the log's keys>.<nargs>.<valid>.<class>.<errhash> | X.<class>.<errhash> | G.<class>.<errhash>
 func modelInput(l *Log, v *Variant, ro *runOut) string {
 	pos := 0
 	pkIdx := map[string]int{}
@@ -153,7 +155,11 @@ func modelInput(l *Log, v *Variant, ro *runOut) string {
 						ix = len(pkIdx)
 						pkIdx[string(pk)] = ix
 					}
-					rs = append(rs, fmt.Sprintf("R.%s.p%d.%d.%s", hx.H([]byte(name)), ix, len(r.Args), ro.own[pos]))
+					valid := "0"
+					if node.VerifValidBatchableWrite(name, r.Args, ro.base+r.Ts) {
+						valid = "1"
+					}
+					rs = append(rs, fmt.Sprintf("R.%s.p%d.%d.%s.%s", hx.H([]byte(name)), ix, len(r.Args), valid, ro.own[pos]))
 				default:
 					rs = append(rs, fmt.Sprintf("%c.%s", r.Kind, ro.own[pos]))
 				}
@@ -175,7 +181,7 @@ func genVariants(r *hx.Rng, l *Log, idx int, tier string) []*Variant {
 	//   v1, v2 vs v0: partition only;  v3 vs v1: isReplaying;  v4, v11 vs v1: engine;
 	//   v5, v6 vs v0 and v7 vs v6: position of the log relative to the wall clock;
 	//   v8 vs v0: nothing (second run in the same process);  v9, v10 vs v1: checkpoint at a cut,
-	//   restore into a new store, tail replayed;  v12 vs v0: node-local expiry sweep (local policy).
+	//   restore into a new store, tail replayed;  v12 vs v14, v13 vs v15: node-local expiry sweep (local policy).
 	n := len(l.Reqs)
 	id := func(k int) string { return l.ID + ".v" + strconv.Itoa(k) }
 	mk := func(k int, eng string, part [][]Call) *Variant {
@@ -219,9 +225,21 @@ func genVariants(r *hx.Rng, l *Log, idx int, tier string) []*Variant {
 		vs = append(vs, mk(11, "rocksdb", p1))
 	}
 	if l.Policy == "local" && haveSweep {
-		v12 := mk(12, "mem", partOne(n))
+		// (pebble: with the mem engine the sweep itself deadlocks as soon as expired keys of two data
+		// types are pending, each type's write batch holding the radix tree's writer lock)
+		// the log lies years after the node's clock: nothing is past expiry there, the sweep must remove nothing
+		v12 := mk(12, "pebble", partOne(n))
 		v12.Expire = sweep
-		vs = append(vs, v12)
+		vs = append(vs, v12, mk(14, "pebble", partOne(n)))
+		if thorough || idx%2 == 0 {
+			// the log lies years before the node's clock: every key with a TTL is past expiry there
+			v13 := mk(13, "pebble", partOne(n))
+			v13.Shift = 2
+			v13.Expire = sweep
+			v15 := mk(15, "pebble", partOne(n))
+			v15.Shift = 2
+			vs = append(vs, v13, v15)
+		}
 	}
 	return vs
 }
